@@ -135,7 +135,11 @@ package bgp
 //@ func validatePathAttributeFlags
 //@   inline
 //@ func getErrorHandlingFromPathAttribute
-//@   tag C05 C06
+//@   tag C05 C06 C14
+// from C06 "attribute discard, treat-as-withdraw ... the strongest reaction any of its errors calls for" (and no
+// stronger): ATOMIC_AGGREGATE, AGGREGATOR (RFC 7606 7.6, 7.7) and AS4_AGGREGATOR (RFC 6793 6: "MUST discard the
+// attribute and continue processing the UPDATE message") are the attributes whose malformation costs the attribute only
+//@   ensures t == BGP_ATTR_TYPE_ATOMIC_AGGREGATE || t == BGP_ATTR_TYPE_AGGREGATOR || t == BGP_ATTR_TYPE_AS4_AGGREGATOR ==> result == ERROR_HANDLING_ATTRIBUTE_DISCARD
 //@   modifies nothing
 //@   ensures result >= ERROR_HANDLING_ATTRIBUTE_DISCARD && result <= ERROR_HANDLING_SESSION_RESET
 //@   ensures t == BGP_ATTR_TYPE_MP_REACH_NLRI || t == BGP_ATTR_TYPE_MP_UNREACH_NLRI ==> result > ERROR_HANDLING_TREAT_AS_WITHDRAW
